@@ -73,16 +73,7 @@ Section Interp.
     end.
   Definition custom_inner (body : M val) : M (option val) :=
     _ <- emit_u UCustomBegin ;; try_ body custom_handler.
-  Definition custom_att (body : M val) : M (option val) := fun s =>
-    let outer := ts s in
-    let o := custom_inner body (with_ts s fresh_t) in
-    let inner := ts (post o) in
-    let outer' := match failed inner with
-                  | Some m => mkT (Some m) (cleanups outer) (ctx outer) (cleaning outer)
-                  | None => outer end in
-    let w' := w o in
-    mkOut (res o) (with_ts (post o) outer')
-          (mkW (rd w') (rpd w') (glog w') (tr w') (pv w') 0 (nf w') false (dirty w')).
+  Definition custom_att (body : M val) : M (option val) := with_fresh_T (custom_inner body).
 
   Definition gval (m : M val) : M val := group true m.       (* Generator.value *)
 
@@ -189,7 +180,7 @@ Section Interp.
     | PRet v => ret v
     | PDraw g k =>
         v <- gval (run_g g) ;;
-        _ <- (fun s => mkOut (Ok tt) s (mkW [] [] [] [UDraw v] [v] 1 false false false)) ;;
+        _ <- note_draw v ;;
         run_p (k v)
     | PFail kind id m k =>
         _ <- emit_u (USignal kind m id) ;;
